@@ -11,13 +11,75 @@ import cases as C  # noqa
 import corr  # noqa
 from lib import f32, f2h, h2f  # noqa
 
-MODULES = ["InovesaModel.Props.C16", "InovesaModel.Props.TieFactory", "InovesaModel.Props.TieImpedance"]
+MODULES = ["InovesaModel.Props.C16", "InovesaModel.Props.TieFactory", "InovesaModel.Props.TieImpedance", "InovesaModel.Props.TiePP"]
 LEVEL = "proof"
 C_LIGHT = 2.99792458e8
 
 
+# first argument at which boost::math::airy_bi_prime (Boost 1.74, double, default policy) raises overflow_error: measured
+# by bisection on the library in this sandbox ((2/3) u^1.5 = 709.19); assumed library behaviour of the model
+BOOST_AIRY_BI_PRIME_OVERFLOW = 104.20871750754524
+
+
+def airy_table(n, f0, fmax, g, limit=6000):
+    """Airy values for the model of the parallel-plates table (the model evaluates the GENERATED scalar arithmetic itself;
+    only Ai, Ai', Bi, Bi' come from here): per sample i = 1..n/2 `count`, then count x (Ai, Ai', Bi, Bi'), each value as a
+    (hi, lo, exponent) triple of binary32 numbers, value = (hi + lo)·2^exponent; the list of a sample ends with a NaN entry at the first mode
+    whose argument reaches the overflow threshold of boost's airy_bi_prime (there the implementation's library call throws,
+    which ends the mode sum).  Returns None when the table
+    would hold more than `limit` modes."""
+    import scipy.special as sp
+    import mpmath
+    mpmath.mp.dps = 30
+    f0, fmax = np.float32(f0), np.float32(fmax)
+    delta = float(fmax / f0) / (n - 1.0)
+    r_bend = C_LIGHT / (2 * math.pi * float(f0))
+    g = float(np.float32(g))
+    out = []
+    total = 0
+    for i in range(1, n // 2 + 1):
+        nn = i * delta
+        m = nn * (g / r_bend) ** 1.5
+        maxp = int(2 * m * (r_bend / g) ** 1.5 * float(f0) * g / C_LIGHT) + 4      # a few more than the code can ask for
+        b = m ** (-4.0 / 3.0)
+        rows = []
+        p = 1
+        while p <= maxp:
+            u = math.pi ** 2 * p * p / 2 ** (2.0 / 3.0) * b
+            if u >= BOOST_AIRY_BI_PRIME_OVERFLOW:
+                rows.append([float("nan")] * 4)      # boost::math::airy_bi_prime throws from here on: the catch ends the sum
+                break
+            if u < 100.0:
+                vals = [float(v) for v in sp.airy(u)]
+            else:                                    # scipy's Airy functions leave the double range at u = 103.28
+                vals = [float(mpmath.airyai(u)), float(mpmath.airyai(u, derivative=1)),
+                        float(mpmath.airybi(u)), float(mpmath.airybi(u, derivative=1))]
+            rows.append(vals)
+            p += 2
+        total += len(rows)
+        if total > limit:
+            return None
+        out.append(float(len(rows)))
+        for r in rows:
+            for v in r:
+                # a double as (hi, lo, exponent): v = (hi + lo) * 2^exponent with |hi + lo| in [0.5, 1)
+                if not math.isfinite(v):
+                    out += [float("nan"), 0.0, 0.0]
+                    continue
+                mant, ex = math.frexp(v)
+                hi = float(np.float32(mant))
+                lo = float(np.float32(mant - hi))
+                out += [hi, lo, float(ex)]
+    return out
+
+
 def imp_case(cid, model, n, extra):
-    return "imp %s %s %d\nextra %s\nrun\n" % (cid, model, n, " ".join(f2h(x) for x in extra))
+    aux = ""
+    if model == "pp":
+        t = airy_table(n, extra[0], extra[1], extra[2])
+        if t is not None:
+            aux = "aux %s\n" % " ".join(f2h(x) for x in t)
+    return "imp %s %s %d\nextra %s\n%srun\n" % (cid, model, n, " ".join(f2h(x) for x in extra), aux)
 
 
 def table(lines):
@@ -48,6 +110,8 @@ def gen(rng, count):
             ex = [f0, fmax, f32(C_LIGHT / f0), f32(rng.choice([3.5e7, 1.4e6])), f32(rng.choice([0.0, -0.5, 1.0])), f32(gap / 2)]
         elif model == "pp":
             n = min(n, 64)
+            while n > 4 and airy_table(n, f0, fmax, f32(gap)) is None:     # keep the Airy table of the model small
+                n //= 2
             rec["n"] = n
             ex = [f0, fmax, f32(gap)]
         elif model == "coll":
